@@ -113,7 +113,7 @@ Section EncDMain.
     exists s',
       format_enc fed a prev (print_opt d n v ++ rest) s = ((match v with [] => 3 | _ => 7 end), rest, s') /\
       pelems (pth s') = E ++ [n] /\ pcurr s' = 11 /\ valid s' = len v /\
-      (v <> [] -> post_read s' (len v) = Some v).
+      (v <> [] -> post_read s' (len v) = Some v) /\ pbin (pth s') = false.
   Proof.
     intros WN N91 WV RD. unfold print_opt. rewrite <- !app_assoc.
     destruct n as [|n0 n']; [now destruct (wo_ne _ _ _ WN)|].
